@@ -1144,6 +1144,9 @@ type pathOpts struct {
 	Bad       func(in ssa.Instruction) bool       // reaching such an instruction undischarged is a violation (default: any Return)
 	EdgeOK    func(b *ssa.BasicBlock, i int) bool // false prunes the edge (e.g. "nothing to dispose on this edge")
 	BadReturn func(ret *ssa.Return, pred *ssa.BasicBlock) bool
+	// StartFacts: the search starts with the branch outcomes that dominate the start point (so that a path cannot
+	// contradict the tests under which the start instruction executes)
+	StartFacts bool
 }
 
 func condKey(v ssa.Value) (string, bool) {
@@ -1253,7 +1256,15 @@ func (p *P) findBadPath(fn *ssa.Function, starts []Point, o pathOpts) (bool, Pat
 		return true
 	}
 	for _, st := range starts {
-		if !walk(st.B, st.Idx+1, nil, map[string]bool{}) {
+		env := map[string]bool{}
+		if o.StartFacts {
+			for _, fct := range factsAt(st.B) {
+				if k, neg := condKey(fct.Cond); k != "" {
+					env[k] = fct.Truth != neg
+				}
+			}
+		}
+		if !walk(st.B, st.Idx+1, nil, env) {
 			return false, res
 		}
 	}
